@@ -83,6 +83,10 @@ def orders_for(rng, p, limit):
     n_attrs = sum(1 for l in R._contract_item.split("\n") if l.startswith("#[sv::"))
     for pm in perms(rng, n_attrs, max(2, limit // 2)):
         out.append({"attrs": pm})
+    # the method-level attribute lists: sv::attr lines above / below the sv::msg line, and among themselves
+    if any(h.get("sv_attrs") for part in p["parts"] for h in part["handlers"]):
+        out.append({"attr_pos": "flip"})
+        out.append({"attr_pos": "reverse"})
     # everything at once
     both = {}
     for part in p["parts"]:
@@ -163,7 +167,7 @@ def inproc_part(ctx):
             jobs.append((base + "_c", "contract", None, R.contract_item(), True))
             jobs.append((base + "_e", "entry_points", None, R.contract_item(True), True))
             for part in p["parts"][1:]:
-                if vname == "id" or part["id"] in order:
+                if vname == "id" or part["id"] in order or "attr_pos" in order:
                     jobs.append((f"{base}_{part['id']}", "interface", None, R.iface_item(part), True))
             meta[base] = (p, vname, order)
     res = inproc_engine.run_jobs(ctx, "c14", jobs)
@@ -178,7 +182,7 @@ def inproc_part(ctx):
             ctx.ev()
             d = {"program": p["name"], "permutation": order, "item": suffix,
                  "original_status": r0["status"], "permuted_status": r["status"]}
-            if p.get("inconsistent_raw_marks"):
+            if p.get("inconsistent_raw_marks") and suffix in ("c", "e"):
                 # not a valid program (one handler name, two payload wire formats): either order must be refused; were both
                 # accepted, the first declared method would decide the format -- the defect repaired by d781708
                 ctx.count("inconsistent_raw_mark_orders")
